@@ -18,22 +18,27 @@ Proof.
 Qed.
 
 (* any number (at least one) of discretisation points; the two flags that are never written have their default value *)
-Definition wf_AnamEmpirical (o : anam_empirical) : Prop :=
+Definition wf_AnamEmpirical (tail : bool) (o : anam_empirical) : Prop :=
   wf_acont (ae_cont o) /\ wf_dbl (ae_sigma2e o) /\ ae_z o <> [] /\ length (ae_y o) = length (ae_z o) /\
-  Forall wf_dbl (ae_z o) /\ Forall wf_dbl (ae_y o) /\ ae_dilution o = false /\ ae_gaussian o = true.
-Lemma AnamEmpirical_reads o : wf_AnamEmpirical o -> reads deser_AnamEmpirical (ser_AnamEmpirical o) o.
+  Forall wf_dbl (ae_z o) /\ Forall wf_dbl (ae_y o) /\ (tail = false -> ae_dilution o = false /\ ae_gaussian o = true).
+Lemma AnamEmpirical_reads tail o : wf_AnamEmpirical tail o -> reads (deser_AnamEmpirical tail) (ser_AnamEmpirical tail o) o.
 Proof.
   destruct o as [c s2 z y dil gau]. unfold wf_AnamEmpirical. cbn [ae_cont ae_sigma2e ae_z ae_y ae_dilution ae_gaussian].
-  intros (Hc & Hs & Hne & Hlen & Hz & Hy & -> & ->).
+  intros (Hc & Hs & Hne & Hlen & Hz & Hy & Hfl).
   unfold deser_AnamEmpirical, ser_AnamEmpirical. cbn [ae_cont ae_sigma2e ae_z ae_y ae_dilution ae_gaussian].
-  eapply reads_bind; [apply AnamContinuous_reads; auto|]. rd.
+  eapply reads_bind; [apply AnamContinuous_reads; auto|]. rewrite <- !app_comm_cons, app_nil_l. rd.
   rewrite <- Hlen, firstn_all.
   eapply reads_bind_cons; [apply reads_vdbl; auto|].
   assert (Hyne : y <> []) by (destruct y, z; simpl in *; congruence).
   unfold lenZ. rewrite <- Hlen.
-  eapply reads_bind_cons; [apply reads_vdbl; auto|]. apply reads_ret_eq. reflexivity.
+  eapply reads_bind_cons; [apply reads_vdbl; auto|].
+  destruct tail.
+  - rewrite <- (app_nil_r [_; _]). eapply reads_bind with (a := (dil, gau)).
+    + apply reads_not_eod; [reflexivity|]. rd. rewrite !b2z_z2b. reflexivity.
+    + apply reads_ret.
+  - destruct (Hfl eq_refl) as [-> ->]. rd. reflexivity.
 Qed.
-Lemma good_AnamEmpirical o : forallb good_rec (ser_AnamEmpirical o) = true.
+Lemma good_AnamEmpirical tail o : forallb good_rec (ser_AnamEmpirical tail o) = true.
 Proof. unfold ser_AnamEmpirical, ser_AnamContinuous. good. Qed.
 
 (* MeshETurbo: any dimension >= 1, with or without masks *)
